@@ -144,7 +144,8 @@ PAIRS = [('ok', 'ok'), ('ok', 'crash'), ('badjson', 'badjson'), ('form', 'ok'), 
          ('badchunk', 'badchunk'), ('notfound_json', 'crash'), ('chunked_ok', 'chunked_ok'), ('header_case', 'ok'), ('header_case', 'header_case'), ('notmodified', 'ok'),
          ('nocontent', 'ok'), ('inject_arg', 'ok'), ('ok', 'notmodified'), ('chunked_ok', 'badchunk'), ('form_fixed', 'form_fixed'), ('ok', 'resp_copy'),
          ('expires', 'resp_copy'), ('sess_mutate', 'sess_mutate'), ('form_fixed', 'form'), ('qs_reassign', 'qs_reassign'), ('urlinfo', 'ok'), ('ok', 'urlinfo'), ('api_404', 'notfound'),
-         ('notfound', 'api_404'), ('api_item', 'urlinfo'), ('neg_cl', 'ok')]
+         ('notfound', 'api_404'), ('api_item', 'urlinfo'), ('neg_cl', 'ok'), ('urlbuild', 'urlbuild'), ('urlbuild', 'typed'), ('ok', 'manyheaders'), ('manyheaders', 'ok'), ('auth', 'manyheaders'),
+         ('manyheaders', 'manyheaders')]
 
 def _reqs():
     anyk = st.lists(st.tuples(st.sampled_from(S.KINDS), st.integers(0, 30)).map(list), min_size=2, max_size=3)
@@ -153,6 +154,7 @@ def _reqs():
     return st.one_of(anyk, same)
 
 
+WARM1 = [('ok', 'manyheaders'), ('auth', 'manyheaders'), ('urlinfo', 'manyheaders'), ('manyheaders', 'manyheaders'), ('longquery', 'manyheaders')]
 PAIRS2 = [('form_fixed', 'form_fixed'), ('chunked_ok', 'chunked_ok'), ('rex', 'rex'), ('expires', 'expires'), ('qs_reassign', 'qs_reassign')]
 # scenario pairs served after a warm-up of w sequential requests of the first kind (what earlier traffic taught the application must not matter)
 _WK = ['crash', 'raised', 'gen', 'cookie_then_abort']          # handlers registered one after the other (neighbours in whatever the router keeps per node)
@@ -197,6 +199,16 @@ def run(ctx):
                 ctx.guarded(check_case, dict(base, schedule=[[1, k], [0, BIG], [1, BIG]]))
             ctx.count('warmed_up_scenarios')
             ctx.count('warmed_up_schedules', yb + 1)
+    # after ONE earlier request of kind a (what it left in process-wide memos is warm): a pre-empted at every step while b, which floods such memos, runs to completion
+    for pi, (a, b) in enumerate(WARM1):
+        if pi % max(1, ctx.nshards) != ctx.shard % max(1, ctx.nshards):
+            continue
+        base = {'reqs': [[a, 1], [b, 2]], 'debug': False, 'warm': [[a, 3]]}
+        ya = run_case(ctx, dict(base, schedule=[[0, BIG]]), count_only=True)[0]
+        for k in range(0, ya + 1):
+            ctx.guarded(check_case, dict(base, schedule=[[0, k], [1, BIG], [0, BIG]]))
+        ctx.count('warm1_scenarios')
+        ctx.count('warm1_schedules', ya + 1)
     # two-preemption schedules (A runs k steps, B runs m steps, A finishes, B finishes) for pairs that meet in shared code, on a stride
     stride2 = 9 if ctx.tier == 'quick' else 3
     for pi, (a, b) in enumerate(PAIRS2):
